@@ -71,7 +71,6 @@ def fixpoint(succ, entries, problem, stats=None):
     IN = [None] * n
     OUT = [None] * n
     order = rpo(succ, sorted(entries))
-    prio = {node: i for i, node in enumerate(order)}
     meet = problem.meet
     transfer = problem.transfer
     for node, st in entries.items():
